@@ -385,6 +385,24 @@ def jobs(tier, seed):
             add('gls', models={'a': 'lineA', 'b': 'lineB', 'c': 'lineA'}, xs={'a': [1.0, 2.0], 'b': [1.0, 3.0], 'c': [0.5]}, ylay={'a': [E, E], 'b': [E, F_], 'c': [Ei]}, key_order=ko)
         S('quad', [0.0, 1.0, 2.0, 3.0, 4.0], [E, Ei, F_, M, E])
         S('line', [1.0, 2.0, 3.0, 4.0], [E, E, E, E], correlated=True)
+        # cross product of model x data layout x priors x minimiser x chi-square kind
+        import itertools
+        lay3 = [[E, E, E], [E, F_, Ei], [M, E, CV]]
+        pri = [None, {'0': ('obs', F_)}, {'0': ('str', '0.40(0.25)')}]
+        for (m, xs_), ys, pr, meth, co in itertools.product((('line', [1.0, 2.0, 4.0]), ('const', [0.0, 1.0, 3.0]), ('slope', [0.5, 1.5, 2.5])), lay3, pri,
+                                                           (None, 'migrad', 'Nelder-Mead'), (False, True, 'estimated')):
+            if pr and any(int(k) >= MODELS[m][0] for k in pr):
+                continue
+            if co == 'estimated' and any(not isinstance(l, dict) for l in ys):
+                continue        # the estimated correlation matrix needs Monte Carlo data on every point
+            kw = {}
+            if pr:
+                kw['priors'] = pr
+            if meth:
+                kw['method'] = meth
+            if co:
+                kw['correlated'] = co
+            S(m, xs_, ys, **kw)
     for pat, lo, hi in (((True, True, True, True), 0, 3), ((True, False, True, True), 0, 3), ((False, True, True, False), 0, 3), ((True, True, False, False), 2, 3),
                         ((True, True, True, True), 1, 2)):
         add('corr_fit', T=4, pat=pat, lo=lo, hi=hi)
